@@ -3,6 +3,8 @@
 package drv
 
 import (
+	"os"
+
 	"github.com/GuanceCloud/platypus/pkg/inimpl/guancecloud/funcs"
 	"github.com/GuanceCloud/platypus/pkg/parser"
 	"go.uber.org/zap"
@@ -16,3 +18,11 @@ func Quiet() {
 }
 
 func init() { Quiet() }
+
+// SilenceStdout points os.Stdout at /dev/null (printf() and stray debug
+// output of the code under test would otherwise flood the worker's output).
+func SilenceStdout() {
+	if f, err := os.OpenFile(os.DevNull, os.O_WRONLY, 0); err == nil {
+		os.Stdout = f
+	}
+}
